@@ -303,7 +303,12 @@ const (
 var kindNames = [...]string{"branch", "call", "enter", "exit", "assign", "incdec", "recv", "send", "close", "select",
 	"go", "defer", "return", "acquire", "release", "broadcast", "getWaitCh", "panic", "access", "loop", "funclit", "range"}
 
-func (k Kind) String() string { return kindNames[k] }
+func (k Kind) String() string {
+	if int(k) < len(kindNames) {
+		return kindNames[k]
+	}
+	return "havoc"
+}
 
 // Event is one step of a path.
 type Event struct {
